@@ -21,9 +21,9 @@
    [outside_size_fields e] says bytes 0 and 4..7 are untouched.  In the most-significant-bit-first numbering
    the statement is false for CRC-16/ARC itself (C04_burst16_msbfirst_refuted), not because of this library. *)
 From Coq Require Import NArith List Bool Arith.
-From FitV Require Import Model.Values Model.Bytes Model.Crc Model.IO Model.Header Model.Route Model.Decode Model.Components
+From FitV Require Import Model.Values Model.Bytes Model.Crc Model.IO Model.Header Model.Route Model.Decode Model.Encode Model.Components
   Gen.Consts Spec.CrcSpec Spec.Burst Spec.Integrity Spec.Grammar
-  Proofs.C04Crc Proofs.C04IO Proofs.C04Verdict Proofs.C04Corrupt Proofs.C04Header Proofs.C04Main Proofs.C04Agree Proofs.C04Examples.
+  Proofs.C04Crc Proofs.C04IO Proofs.C04Verdict Proofs.C04Corrupt Proofs.C04Header Proofs.C04Main Proofs.C04Agree Proofs.C04Examples Proofs.EncodeProofs Proofs.C04Encode Proofs.EncExamples.
 Import ListNotations.
 Local Open Scope N_scope.
 
@@ -112,7 +112,7 @@ Proof. exact decode_ok_integrity_ok. Qed.
 Print Assumptions C04_decode_ok_integrity_ok.
 
 (* what Encode emits passes: any byte string framed as Spec/Grammar.v demands (header_ok, trailer_ok: proved
-   of the encoder model's output by encode_framing, wip/EncodeProofs.v) with a supported protocol version *)
+   of the encoder model's output by encode_framing, Proofs/EncodeProofs.v) with a supported protocol version *)
 Theorem C04_encode_integrity_ok : forall bs, is_bytes bs ->
   header_ok bs = true -> trailer_ok bs = true -> proto_ok (nth 1 bs 0) = true ->
   forall o g fuel rd, rd_data rd = bs -> (measure rd < fuel)%nat ->
@@ -120,6 +120,19 @@ Theorem C04_encode_integrity_ok : forall bs, is_bytes bs ->
             rd_pos (dr_rd r) = (rd_pos rd + length bs)%nat.
 Proof. exact encode_integrity_ok. Qed.
 Print Assumptions C04_encode_integrity_ok.
+
+(* ... and for Encode itself (the encoder model of Model/Encode.v): what it writes for a File whose header is as
+   NewHeader makes it (wf_header: size 12 or 14, one-byte protocol version, ".FIT") with a protocol major version the
+   decoder supports is accepted by CheckIntegrity, for every reader; through encode_framing (C05, Proofs/EncodeProofs.v).
+   Encode does not validate a hand-made header: outside these hypotheses its output is rejected (docs/notes-C04.md) *)
+Theorem C04_encode_output_accepted : forall f be bs f',
+  wf_header (f_header f) = true -> proto_ok (h_proto (f_header f)) = true ->
+  encode f be = EOk (bs, f') -> N.of_nat (List.length bs) < 4294967296 ->
+  forall o g fuel rd, rd_data rd = bs -> (measure rd < fuel)%nat ->
+  exists r, decode o MCrcOnly g rd fuel = TDone r /\ dr_err r = None /\
+            rd_pos (dr_rd r) = (rd_pos rd + List.length bs)%nat.
+Proof. exact encode_output_accepted. Qed.
+Print Assumptions C04_encode_output_accepted.
 
 (* CRC verdicts agree: an IntegrityError returned by Decode (header checksum or file checksum) is the error
    CheckIntegrity returns on the same bytes, under any two chunk schedules; record parsing never produces one *)
@@ -194,6 +207,23 @@ Theorem C04_header_nocrc_accept : forall bs tm, is_bytes (firstn 14 bs) ->
   header_stage_with arc bs tm = None /\ header_check_integrity (parse_header bs) = None.
 Proof. exact header_nocrc_accept. Qed.
 
+(* every size byte: Header.CheckIntegrity rejects (non-integrity error, checked first) every Header value whose Size is
+   neither 12 nor 14, and every decoding entry point returns the illegal-header-size error on any input starting with
+   such a byte; there is no decoded Header for those inputs, the Header value is whatever a caller builds *)
+Theorem C04_bad_size_rejected_all_apis : forall sz t o g fuel rd, rd_data rd = sz :: t -> (measure rd < fuel)%nat ->
+  sz <> 12 -> sz <> 14 ->
+  (forall md, exists r, decode o md g rd fuel = TDone r /\ dr_err r = Some EHeaderSize /\ is_integrity EHeaderSize = false) /\
+  (forall h, h_size h = sz -> header_check_integrity h = Some false).
+Proof. exact bad_size_rejected_all_apis. Qed.
+Print Assumptions C04_bad_size_rejected_all_apis.
+
+(* the agreement equation for every size byte 0..255: the header bytes are demanded only when the size is 12 or 14 *)
+Theorem C04_header_apis_agree_all_sizes : forall bs tm, bs <> [] -> is_bytes (firstn 14 bs) ->
+  (b_at bs 0 = 12 \/ b_at bs 0 = 14 -> (N.to_nat (b_at bs 0) <= length bs)%nat) ->
+  header_check_integrity (parse_header bs) = hci_of_stage (header_stage_with checksum bs tm).
+Proof. exact header_apis_agree_all_sizes. Qed.
+Print Assumptions C04_header_apis_agree_all_sizes.
+
 (* ------------------------------------------------------------------ non-vacuity *)
 (* witnesses (Proofs/C04Examples.v): ex12 is a 25-byte activity file (12-byte header, file_id definition and
    record, checksum A1 EC), ex14 the same records behind a 14-byte header with stored checksum; both are accepted by
@@ -230,3 +260,16 @@ Example C04_ex_integrity_error :
   exists r, decode no_opts MFull g_init (ex_rd (xorl ex12 (burst 25 192 1))) 40 = TDone r /\ dr_err r = Some EFileCRC /\
             is_integrity EFileCRC = true /\ (measure (ex_rd (xorl ex12 (burst 25 192 1))) < 40)%nat.
 Proof. exact ex_integrity_error. Qed.
+
+(* hypotheses of C04_encode_output_accepted: the example File of the encoder proofs *)
+Example C04_ex_encode :
+  wf_header (f_header ex_file) = true /\ proto_ok (h_proto (f_header ex_file)) = true /\
+  exists bs f', encode ex_file true = EOk (bs, f') /\ N.of_nat (List.length bs) < 4294967296.
+Proof. exact ex_encode_hyps. Qed.
+
+(* hypotheses of C04_bad_size_rejected_all_apis: a Header with Size 13 and a non-zero CRC (the value that made the
+   method panic before fix 3d4f0a9), and an input starting with byte 13 *)
+Example C04_ex_bad_size :
+  header_check_integrity (mk_header 13 32 2134 0 fit_dtype 1) = Some false /\
+  header_stage_with arc [13; 32; 0; 0; 0; 0; 0; 0; 46; 70; 73; 84; 0; 0] TEOF = Some EHeaderSize.
+Proof. exact (conj eq_refl eq_refl). Qed.
